@@ -480,6 +480,7 @@ def run_clone_case(case, C, sets, soft):
                 if is_inside(src, dest):
                     bump("sit:dest_is_ancestor_of_src")
         pre_blocks = region_blocks(dest)
+        s_blocks_top = region_blocks(src)
         n = len(pre_blocks)
         ik = case["index"]
         index = None if ik == "none" else 0 if ik == "first" else n if ik == "last" else (n // 2 if n < 2 else prng.randint(1, n - 1))
@@ -487,6 +488,8 @@ def run_clone_case(case, C, sets, soft):
         bump("sit:dest_nonempty" if n else "sit:dest_empty")
         if n:
             bump("sit:index_first" if eff == 0 else "sit:index_last" if eff == n else "sit:index_mid")
+            if eff < n and len(s_blocks_top) >= 2:
+                bump("sit:multiblock_src_inserted_before_end_of_nonempty_dest")
             if eff > 0 and any(block_ops(b) for b in pre_blocks[:eff]):
                 bump("sit:dest_ops_before_insert_point")
 
@@ -542,10 +545,20 @@ def run_clone_case(case, C, sets, soft):
             model_match = _clone_into_bug_model(src, dest, new_blocks, shadow, roots, seeded_vm)
         post_canon = [canon_ir(b, with_hints=True, normalise=False) for b in pre_blocks]
         dest_changed = post_canon != pre_canon
-        # move the new blocks out (destructive, after the non-destructive checks) and compare as a region
+        # link integrity of the destination WITH the new blocks in place (forward and backward raw links, parents,
+        # use lists) and agreement of the public forward / reverse iterators
+        _in_place_integrity(dest, now, roots, desc, entry, C, dest_changed)
+        # edit after clone: take the new blocks out ONE AT A TIME (random order); after each step the destination must
+        # contain exactly the remaining blocks, in order, under every way of iterating
         tmp = Region()
-        for b in new_blocks:
+        remaining = list(now)
+        order = list(new_blocks)
+        prng.shuffle(order)
+        for b in order:
             dest.detach_block(b)
+            remaining = [x for x in remaining if x is not b]
+            _block_list_is(dest, remaining, f"{desc}: after detaching one cloned block", "clone_into:detach-cloned-block-corrupts-destination")
+            bump("in_place_detach_steps")
         tmp.add_block(new_blocks)
         copy = tmp
         roots.append(tmp)
@@ -683,9 +696,14 @@ def run_clone_case(case, C, sets, soft):
                 nb = now[eff:eff + k]
                 if [id(b) for b in now[:eff] + now[eff + k:]] != [id(b) for b in pre2]:
                     raise Violation("clone_into:block-placement", f"{rdesc}: destination block list is not pre[:i]+new+pre[i:]")
+                _in_place_integrity(dest, now, roots, rdesc, entry, C, False)
                 cpy = Region()
-                for b in nb:
+                remaining = list(now)
+                for b in (nb if rep % 2 else list(reversed(nb))):
                     dest.detach_block(b)
+                    remaining = [x for x in remaining if x is not b]
+                    _block_list_is(dest, remaining, f"{rdesc}: after detaching one cloned block",
+                                   "clone_into:detach-cloned-block-corrupts-destination")
                 cpy.add_block(nb)
             got = canon_ir(cpy, normalise=False)
             if got != expected:
@@ -778,6 +796,44 @@ def run_clone_case(case, C, sets, soft):
     if nontrivial:
         bump("nontrivial_cases")
     return nontrivial, shash((src_canon_tokens(src_canon), entry, case["variant"], case.get("dest"), case.get("index")))
+
+
+def _block_list_is(region, want, desc, key):
+    """raw forward walk, raw backward walk, public forward / reversed / indexed iteration must all give `want`"""
+    ids = [id(b) for b in want]
+    fwd = region_blocks(region)
+    bwd = []
+    b = region._last_block
+    while b is not None and len(bwd) <= len(want) + 2:
+        bwd.append(b)
+        b = b._prev_block
+    pub = list(region.blocks)
+    rev = list(reversed(region.blocks))
+    views = {"forward links": fwd, "backward links": list(reversed(bwd)), "region.blocks": pub,
+             "reversed(region.blocks)": list(reversed(rev))}
+    for name, got in views.items():
+        if [id(x) for x in got] != ids:
+            raise Violation(key, f"{desc}: {name} give {len(got)} block(s), expected {len(want)} (or a different order)")
+    if want and (region.blocks[-1] is not want[-1] or region.blocks[0] is not want[0]):
+        raise Violation(key, f"{desc}: region.blocks[0] / [-1] are not the first / last block")
+    if any(x.parent is not region for x in want):
+        raise Violation(key, f"{desc}: a block of the region has a different parent")
+
+
+def _in_place_integrity(dest, now, roots, desc, entry, C, dest_changed):
+    from xv.irsan import Broken, check_tree
+    _block_list_is(dest, now, f"{desc}: right after the call", "clone_into:destination-block-links")
+    fwd_ops = [id(o) for o in collect(dest)[0]]
+    rev_ops = [id(o) for o in dest.walk(reverse=True)]
+    if sorted(fwd_ops) != sorted(rev_ops) or len(set(rev_ops)) != len(rev_ops):
+        raise Violation("clone_into:destination-block-links", f"{desc}: walk(reverse=True) of the destination visits "
+                        f"{len(rev_ops)} ops, the forward walk {len(fwd_ops)}")
+    if not dest_changed:
+        try:
+            check_tree(list({id(r): r for r in roots}.values()))
+        except Broken as e:
+            raise Violation(f"{entry}:irsan-in-place", f"{desc}: IR sanitizer with the cloned blocks in place: {e}")
+    C["in_place_integrity_checks"] = C.get("in_place_integrity_checks", 0) + 1
 
 
 def src_canon_tokens(c):
@@ -1273,7 +1329,7 @@ def finish(agg, tier):
             "calls:region.clone_into": 200, "sit:dest_nonempty": 100, "sit:dest_ops_before_insert_point": 40,
             "sit:src_forward_ref": 300, "sit:src_outside_value_ref": 300, "sit:src_multi_block": 300,
             "sit:preseeded_mapper_hit": 50, "independence_histories": 1000, "edits_applied": 10000,
-            "mapper_reuse_calls": 1500, "mapper_reuse_histories_with_internal_values": 500,
+            "sit:multiblock_src_inserted_before_end_of_nonempty_dest": 60, "in_place_integrity_checks": 400, "in_place_detach_steps": 400, "mapper_reuse_calls": 1500, "mapper_reuse_histories_with_internal_values": 500,
             "apply_to_clone_calls": 1500, "apply_raised_injected": 100, "originals_compared_unchanged": 1500}
     for k, n in need.items():
         if c.get(k, 0) < n:
